@@ -1,8 +1,58 @@
-(* C03 — placeholder; replaced when the compiler model (Model/Compile.v) and its theorems are in. *)
+(* C03 — a compiled program behaves exactly like the interpreted program.  Property theorems only.
+   Model: coq/Model/Compile.v — build_source as a function to a small IR (block partition, translated label table,
+   start block, serialised pre-state, dispatch tree) and [ir_run], the semantics of the emitted program (prelude
+   Stack::pop/push = the interpreter's wrappers, `while state < n { dispatch; state += 1 }` with `continue` on jumps).
+   NOT provable here: that rustc accepts the emitted text and that the executable behaves as [ir_run] says — that is
+   the rustc run of tools/hv/compchecks.py, which also compares the emitted structure with the IR.
+   compiled_sound/complete cover levels 0 and 1 (no serialised pre-state; any container kind); the level-2 pre-state
+   path (Num::from_string of the printed stacks: C09; translated labels) is covered by the IR-vs-definition run and
+   the refutation witness below — [partial]. *)
 From Coq Require Import List NArith Bool.
 Import ListNotations.
-From HV Require Import Model.Exec Model.Opt.
-Theorem C03_level0_source_program : forall fx fuel code input,
-  run_level fx fuel code 0%N input = run_inc fuel [] (map xcode_of_ucode code) (state0 SUnopt input).
-Proof. reflexivity. Qed.
-Print Assumptions C03_level0_source_program.
+From HV Require Import Model.Parse Model.Exec Model.Opt Model.Compile Proofs.OptSpec Proofs.CompSpec.
+From HV Require Proofs.CompProofs.
+Open Scope N_scope.
+
+(* the generated if/else tree runs block i and only it when state = i, for every number of blocks *)
+Theorem C03_dispatch_selects : forall n b, b < n -> tree_select (dispatch_tree n) b = b.
+Proof. exact CompProofs.dispatch_selects. Qed.
+Print Assumptions C03_dispatch_selects.
+
+(* blocks: concatenation gives back the commands; each block is one area-carrying command or a run of area-free ones *)
+Theorem C03_blocks_partition : forall code, concat (blocks code) = code /\ Forall block_ok (blocks code).
+Proof. exact CompProofs.blocks_partition. Qed.
+Print Assumptions C03_blocks_partition.
+
+(* label and white-heart targets, translated from command index to block index, point at the block that is that command *)
+Theorem C03_targets_translate : forall code i c, nth_error code (N.to_nat i) = Some c -> has_area c = true ->
+  nth_error (blocks code) (N.to_nat (block_index code i)) = Some [c].
+Proof. exact CompProofs.block_index_ok. Qed.
+Print Assumptions C03_targets_translate.
+
+(* the emitted program behaves like the interpreter (levels 0 and 1): every finished interpreter run is matched... *)
+Theorem C03_compiled_sound_partial : forall k fuel code input,
+  match run_pre fuel code (state0 k input) 0 with
+  | FFuel _ _ => True
+  | FPanic _ => True
+  | x => exists fuel', ibeh (ir_run fuel' (build_ir true 1 (state0 k input) [] code) input) = beh x
+  end.
+Proof. exact CompProofs.compiled_sound. Qed.
+Print Assumptions C03_compiled_sound_partial.
+(* ... and conversely; the emitted program never reaches an undefined dispatch state *)
+Theorem C03_compiled_complete_partial : forall k fuel code input,
+  match ir_run fuel (build_ir true 1 (state0 k input) [] code) input with
+  | IFuel _ => True
+  | IBadState => False
+  | y => exists fuel', beh (run_pre fuel' code (state0 k input) 0) = ibeh y
+  end.
+Proof. exact CompProofs.compiled_complete. Qed.
+Print Assumptions C03_compiled_complete_partial.
+
+(* the pinned compiler (before fix 7d19713) resumed a level-2 program at the wrong block; the repaired one agrees
+   with the interpreter on the witness *)
+Theorem C03_pinned_refuted : exists code input fuel p p',
+  compile_prog all_fixed false code 2 = Some p /\ compile_prog all_fixed true code 2 = Some p' /\
+  ibeh (ir_run fuel p input) <> ibeh (ir_run fuel p' input) /\
+  ibeh (ir_run fuel p' input) = beh (run_level all_fixed fuel code 0 input).
+Proof. exact CompProofs.compiled_pinned_refuted. Qed.
+Print Assumptions C03_pinned_refuted.
